@@ -13,8 +13,10 @@ ToSet(s) == {s[i] : i \in 1..Len(s)}
 PatOK(p) == LET o == p.obs IN
             /\ o.panic = ""
             /\ o.err = ""                         \* nothing matching is an empty result, not an error
-            /\ ToSet(o.res) = ToSet(p.exp)        \* exactly the existing matching paths ("." and ".." are optional members)
-            /\ ToSet(o.strs) = ToSet(p.expstr)     \* spelled with the pattern's separators (absolute / repeated slashes kept)
+            \* exactly the existing matching paths ("." and ".." are optional members), spelled with the pattern's separators
+            \* (absolute / repeated slashes kept); exp2: the other reading of a trailing backslash (equal to exp otherwise)
+            /\ \/ ToSet(o.res) = ToSet(p.exp) /\ ToSet(o.strs) = ToSet(p.expstr)
+               \/ ToSet(o.res) = ToSet(p.exp2) /\ ToSet(o.strs) = ToSet(p.expstr2)
             /\ o.sorted /\ o.nodup /\ o.lstat /\ o.slashok
 
 Chk == \A i \in 1..Len(Recs[k].pats) : PatOK(Recs[k].pats[i]) \/ PrintT(<<"MISMATCH", k, i>>)
